@@ -18,6 +18,7 @@ import (
 	"strconv"
 	"strings"
 	"sync"
+	"sync/atomic"
 	"time"
 
 	"go.uber.org/multierr"
@@ -353,6 +354,18 @@ func settle(mode int) {
 	}
 }
 
+// Watchdogs only decide after a long real-time wait (the machine may be heavily loaded); everything
+// else is decided by events.  Once several cases have genuinely timed out the patience is shortened
+// so that a broken implementation does not make the run take hours.
+var slowFailures atomic.Int64
+
+func patience() time.Duration {
+	if slowFailures.Load() >= 3 {
+		return 2 * time.Second
+	}
+	return 30 * time.Second
+}
+
 type outcome struct {
 	obs    string   // canonical observation: coll=… conns=…
 	trace  []string // model actions
@@ -403,8 +416,9 @@ func runScript(s script) outcome {
 	var got ret
 	select {
 	case got = <-retc:
-	case <-time.After(5 * time.Second):
-		fail("connect-hangs", "all dials were released but connect did not return within 5s")
+	case <-time.After(patience()):
+		slowFailures.Add(1)
+		fail("connect-hangs", "all dials were released but connect did not return within the watchdog time (30s; shortened after repeated failures)")
 		cancel()
 		got = <-retc
 		cancelled = true
@@ -414,7 +428,7 @@ func runScript(s script) outcome {
 	if got.conn != nil {
 		want = 1
 	}
-	deadline := time.Now().Add(3 * time.Second)
+	deadline := time.Now().Add(patience())
 	for {
 		open := 0
 		for _, c := range r.snapshotConns() {
@@ -467,7 +481,8 @@ func runScript(s script) outcome {
 			cs.WriteByte('c')
 		default:
 			cs.WriteByte('o')
-			fail("conn-leak", fmt.Sprintf("connection of dialer %d (%s) is still open 3s after connect returned (winner=%d)", i, outNames[s.out[i]], winner))
+			slowFailures.Add(1)
+			fail("conn-leak", fmt.Sprintf("connection of dialer %d (%s) is still open long after connect returned and every dial finished (watchdog 30s, shortened after repeated failures; winner=%d)", i, outNames[s.out[i]], winner))
 		}
 		if s.out[i] == outOK {
 			anyOK = true
